@@ -560,24 +560,30 @@ class WsCloseAfterFailure(Contract):
     ensures = {"no-request-frame-after-a-failed-write": lambda s: WsCloseAfterFailure.ok(s)}
 
 
+def _compositions(n):
+    if n == 0:
+        return [[]]
+    return [[k] + rest for k in range(1, n + 1) for rest in _compositions(n - k)]
+
+
 @contract
 class WsWriteExpeditedPieces(Contract):
-    """an expedited-size download (declared size 2..4) written in two pieces: every piece is taken, nothing is sent
-    until the declared size is there, then exactly one expedited frame carries header ++ piece1 ++ piece2 ++ zero
-    padding and the stream is done"""
+    """an expedited-size download (declared size 2..4) written in pieces (every composition of the size into two or more
+    parts): every piece is taken, nothing is sent until the declared size is there, then exactly one expedited frame
+    carries header ++ the pieces in order ++ zero padding and the stream is done"""
     target = "canopen.sdo.client:WritableStream.write"
     id = "WsWriteExpeditedPieces"
     props = ("C01",)
-    cases = {"%d+%d" % (a, n - a): (n, a) for n in (2, 3, 4) for a in range(1, n)}
+    cases = {"+".join(map(str, c)): tuple(c) for n in (2, 3, 4) for c in _compositions(n) if len(c) > 1}
     exits = ("return", "raise:SdoCommunicationError", "raise:SdoAbortedError")
 
     def setup(self, w, case):
-        n, a = case
+        n = sum(case)
         ws = mk_ws(w, True)
         w.assume(And(compare("==", w.pre["size"], n), Not(w.pre["done"])))
-        b1, b2 = w.bytes("b1", a), w.bytes("b2", n - a)
-        w.pre.update(b1=b1, b2=b2, n=n, a=a)
-        return Call(("func", "env.drivers", "write_two_pieces"), [ws, b1, b2])
+        pieces = [w.bytes("b%d" % i, k) for i, k in enumerate(case)]
+        w.pre.update(pieces=pieces, n=n, parts=case)
+        return Call(("func", "env.drivers", "write_pieces"), [ws, w.list(pieces)])
 
     @staticmethod
     def ok(s):
@@ -585,9 +591,9 @@ class WsWriteExpeditedPieces(Contract):
         reqs = requests(s)
         if len(reqs) != 1:
             return False
-        n, a = p["n"], p["a"]
-        items = [S.byte(p["hdr"], i) for i in range(4)] + [S.byte(p["b1"], i) for i in range(a)] \
-            + [S.byte(p["b2"], i) for i in range(n - a)] + [0] * (4 - n)
+        n = p["n"]
+        items = [S.byte(p["hdr"], i) for i in range(4)] + [S.byte(b, i) for b, k in zip(p["pieces"], p["parts"]) for i in range(k)] \
+            + [0] * (4 - n)
         fr = frame(reqs[0], items)
         pr = propagated(s)
         if pr is not None:
@@ -595,7 +601,8 @@ class WsWriteExpeditedPieces(Contract):
         R = last_outcome(s)[1]
         if not bool(compare("==", binop("&", S.byte(R, 0), 0xE0), 0x60)):
             return And(fr, s.raised(COMM))
-        return And(fr, s.returned, isinstance(s.ret, tuple) and len(s.ret) == 2 and S.eq(s.ret[0], a) and S.eq(s.ret[1], n - a),
+        return And(fr, s.returned, isinstance(s.ret, tuple) and len(s.ret) == len(p["parts"])
+                   and And([S.eq(r, k) for r, k in zip(s.ret, p["parts"])]),
                    truth_val(s.w.get(p["ws"], "_done")), S.eq(s.w.get(p["ws"], "pos"), n))
 
-    ensures = {"one-expedited-frame-with-both-pieces": lambda s: WsWriteExpeditedPieces.ok(s)}
+    ensures = {"one-expedited-frame-with-all-pieces": lambda s: WsWriteExpeditedPieces.ok(s)}
